@@ -99,6 +99,11 @@ def instant_near(rng, now, allow_past=True):
 
 def gen_item(rng, ids, depth, st, kinds):
     it = {"id": ids.next("item"), "shape": rng.randrange(0, 35), "ops": []}
+    if st.get("rets") and depth == 0 and rng.random() < 0.5:
+        rid = st["rets"].pop()
+        it["holds"] = {"rets": [rid]}
+        if rng.random() < 0.4:
+            it["ops"].append({"op": "ret", "rid": rid, "val": rid})
     n = rng.choice([0, 0, 1, 1, 2, 3]) if depth < st["maxdepth"] else 0
     for _ in range(n):
         if st["budget"] <= 0:
@@ -157,10 +162,15 @@ def gen_queue_case(rng, name, props, big=False):
     now = [0, 0]
     tmaxi = [0, 0]
     nsteps = rng.randrange(2, 9)
+    st["rets"] = []
     for _ in range(nsteps):
         for _ in range(rng.randrange(0, 5)):
             if st["budget"] <= 0:
                 break
+            if rng.random() < 0.2:
+                rid = ids.next("rid")
+                ops.append({"op": "mkret", "rid": rid, "kind": "plain"})
+                st["rets"].append(rid)
             ops.append(gen_qop(rng, ids, 0, st, kinds, nested=False))
         if big and rng.random() < 0.5:
             # burst of large closures: force buffer growth and chaining
@@ -183,6 +193,10 @@ def gen_queue_case(rng, name, props, big=False):
         # leave work pending, then drop the Stakker
         for _ in range(rng.randrange(1, 6)):
             st["budget"] = max(st["budget"], 3)
+            if rng.random() < 0.3:
+                rid = ids.next("rid")
+                ops.append({"op": "mkret", "rid": rid, "kind": "plain"})
+                st["rets"].append(rid)
             ops.append(gen_qop(rng, ids, 0, st, kinds, nested=False))
         if rng.random() < 0.7:
             ops.append({"op": "drop_stakker"})
@@ -207,6 +221,10 @@ def gen_timer_case(rng, name, props, nops=None, drain=None):
 
     def cb_item(depth=0):
         it = {"id": ids.next("item"), "ops": []}
+        if depth == 0 and rng.random() < 0.2:
+            rid = ids.next("rid")
+            ops.append({"op": "mkret", "rid": rid, "kind": "plain"})
+            it["holds"] = {"rets": [rid]}
         if depth == 0 and rng.random() < 0.25:
             # callbacks that manipulate timers themselves
             for _ in range(rng.randrange(1, 3)):
@@ -366,6 +384,14 @@ def gen_actor_case(rng, name, props, logger=False):
             for _ in range(steps):
                 cur = {"id": ids.next("item"), "ret": "none",
                        "ops": [{"op": "call", "aid": aid, "prep": True, "item": cur}]}
+            if rng.random() < 0.3:
+                # children put into a slab while the parent is still in Prep
+                for _ in range(rng.randrange(1, 3)):
+                    caid = ids.next("aid")
+                    ckind = rng.choice(["now", "fail", "stopinit", "now"])
+                    cur["ops"].insert(0, {"op": "acreate", "aid": caid, "oid": 0, "slab": True,
+                                          "init": init_item(ckind)})
+                    actors.append(caid)
             op["init"] = cur
         else:
             op["init"] = init_item(kind)
@@ -518,9 +544,40 @@ def gen_actor_case(rng, name, props, logger=False):
     return {"case": name, "props": props, "acyclic": True, "ops": ops}
 
 
+def gen_grow_case(rng, name, props):
+    """Closures whose space requirement sits next to a buffer-size boundary,
+    pushed onto fresh (small) non-empty queues: growth + chaining edges."""
+    ids = Ids()
+    ops = []
+    now = [0, 0]
+    for _ in range(rng.randrange(3, 9)):
+        pre = rng.randrange(0, 4)
+        for _ in range(pre):
+            ops.append({"op": rng.choice(["defer", "defer", "lazy"]),
+                        "item": {"id": ids.next("item"), "shape": rng.choice([0, 1, 2, 3, 9, 16]), "ops": []}})
+        q = rng.choice(["defer", "defer", "defer", "lazy"])
+        big = {"id": ids.next("item"), "shape": rng.randrange(35, 80), "ops": []}
+        if rng.random() < 0.3:
+            # pushed from inside a running closure instead
+            ops.append({"op": "defer", "item": {"id": ids.next("item"), "shape": 2, "ops": [
+                {"op": "defer", "item": {"id": ids.next("item"), "shape": 0, "ops": []}}, {"op": q, "item": big}]}})
+        else:
+            ops.append({"op": q, "item": big})
+        for _ in range(rng.randrange(0, 3)):
+            ops.append({"op": "defer", "item": {"id": ids.next("item"), "shape": rng.randrange(0, 80), "ops": []}})
+        if rng.random() < 0.85:
+            # >60 s later: the queues are recreated after this run, so the next round starts small again
+            now = tadd(now, [rng.choice([61, 61, 62, 5]), 1])
+            ops.append({"op": "run", "t": now, "idle": False})
+    if rng.random() < 0.3:
+        ops.append({"op": "drop_stakker"})
+    return {"case": name, "props": props, "acyclic": True, "ops": ops}
+
+
 FAMILIES = {
     "q": lambda rng, name, props: gen_queue_case(rng, name, props),
     "qbig": lambda rng, name, props: gen_queue_case(rng, name, props, big=True),
+    "qgrow": gen_grow_case,
     "t": lambda rng, name, props: gen_timer_case(rng, name, props),
     "c19": lambda rng, name, props: gen_c19_case(rng, name, props),
     "a": lambda rng, name, props: gen_actor_case(rng, name, props),
